@@ -202,9 +202,10 @@ def run(ctx):
     ]
     d = ctx.spec_dir(*DIRS)
     if q:
-        cfgs, muts = [("MCPmmConcT3one", 600)], ["MCPmmConcBug2_NoReleaseOnDoubleFree", "MCPmmConcBug2_BodyOutsideLock"]
+        cfgs, muts = [("MCPmmConcT1", 300), ("MCPmmConcT4", 300), ("MCPmmConcT3one", 600)], ["MCPmmConcBug2_NoReleaseOnDoubleFree", "MCPmmConcBug2_BodyOutsideLock"]
     else:
-        cfgs = [("MCPmmConcQuick", 900), ("MCPmmConcFull", 1800)]
+        cfgs = [("MCPmmConcT1", 300), ("MCPmmConcT3empty", 600), ("MCPmmConcT4x2", 900), ("MCPmmConcQuick", 900),
+                ("MCPmmConcFull", 1800)]
         muts = ["MCPmmConcBug_NoReleaseOnDoubleFree", "MCPmmConcBug_BodyOutsideLock", "MCPmmConcBug_ReleaseBeforeCounter",
                 "MCPmmConcBug_NoAcquireInFree"]
     if os.environ.get("VERIF_CONC_DYNAMIC_ONLY") != "1":      # development switch: measure the dynamic legs alone
